@@ -548,6 +548,51 @@ theorem explicit_array_order_independent (arrs arrs' : List (Arr α)) (hp : arrs
     refine explicit_multiset_only arrs arrs' hb (hany ▸ hb) ?_
     exact List.Perm.flatMap_right _ hp
 
+private theorem factor_fold_ge (sel : Arr α → Option (List α)) (arrs : List (Arr α)) (acc : α) :
+    acc ≤ arrs.foldl (factorStep sel) acc := by
+  induction arrs generalizing acc with
+  | nil => exact le_refl _
+  | cons pa rest ih =>
+    simp only [List.foldl_cons]
+    refine le_trans ?_ (ih _)
+    unfold factorStep
+    cases sel pa with
+    | none => exact le_refl _
+    | some v =>
+      simp only [pymax]
+      split
+      · exact le_of_lt ‹_›
+      · exact le_refl _
+
+private theorem factor_perm (sel : Arr α → Option (List α)) (arrs arrs' : List (Arr α))
+    (hp : arrs.Perm arrs') :
+    arrs.foldl (factorStep sel) (-1) = arrs'.foldl (factorStep sel) (-1) := by
+  have hv : (critVals sel arrs).Perm (critVals sel arrs') := List.Perm.flatMap_right _ hp
+  obtain ⟨hub, hmem⟩ := factor_spec sel arrs
+  obtain ⟨hub', hmem'⟩ := factor_spec sel arrs'
+  have hge := factor_fold_ge sel arrs (-1)
+  have hge' := factor_fold_ge sel arrs' (-1)
+  rcases hmem with h | h <;> rcases hmem' with h' | h'
+  · rw [h, h']
+  · exact le_antisymm (by rw [h]; exact hge') (hub _ (hv.mem_iff.mpr h'))
+  · exact le_antisymm (hub' _ (hv.mem_iff.mp h)) (by rw [h']; exact hge)
+  · exact le_antisymm (hub' _ (hv.mem_iff.mp h)) (hub _ (hv.mem_iff.mpr h'))
+
+/-- the three criterion maxima do not depend on the order of the arrays -/
+theorem factors_array_order_independent (arrs arrs' : List (Arr α)) (hp : arrs.Perm arrs') :
+    factors arrs = factors arrs' := by
+  simp only [factors, factor_perm _ arrs arrs' hp]
+
+/-- **The whole of `compute_time_step` is independent of the order in which the
+particle arrays are handed to the integrator.** -/
+theorem compute_time_step_array_order_independent (sqrt : α → α) (arrs arrs' : List (Arr α))
+    (cfl : α) (fixedH : Option (Ext α)) (hwf : WF arrs) (hp : arrs.Perm arrs') :
+    computeTimeStep sqrt arrs cfl fixedH = computeTimeStep sqrt arrs' cfl fixedH := by
+  simp only [computeTimeStep, computeTimeStepFrom,
+    explicit_array_order_independent arrs arrs' hp,
+    factors_array_order_independent arrs arrs' hp,
+    hmin_array_order_independent arrs arrs' hwf hp]
+
 /-- non-vacuity: the same five particles split and ordered in two ways -/
 example :
     let a : Arr ℚ := { nAll := 3, hAll := [3, 1, 2], dtAdapt := some [5, 4, 6],
